@@ -8,7 +8,7 @@ import random
 import re
 from fractions import Fraction
 
-from harness.core import carr, cbool, clist, copt, cq, cres, cstr, cz, errcode, np_arg, to_float, frac_str
+from harness.core import CaseError, carr, cbool, clist, copt, cq, cres, cstr, cz, errcode, np_arg, to_float, frac_str
 from harness.suites import progbase
 from harness.suites.proggen import fs, wid
 
@@ -636,6 +636,11 @@ def ctor_specs(rng, tier):
             spec["column_names"] = [rng.choice(["a", None]) for _ in range(c_ok + 1)] if rng.random() < 0.7 else []
         specs.append(spec)
     specs.append({"kind": "trough", "name": "T", "vrows": {"notint": "none"}, "cols": 2, "min": "0", "max": "100", "init": None})
+    # initial volumes in a narrow float type, one of them above a max_volume that the narrow type cannot tell from it
+    specs.append({"kind": "plate", "name": "P", "rows": 1, "cols": 2, "min": "0", "max": "104857599/1048576", "init": {"shape": "list", "v": ["100", "5"]}, "init_dtype": "float32"})
+    specs.append({"kind": "plate", "name": "P", "rows": 1, "cols": 2, "min": "0", "max": "4003/4", "init": {"shape": "list", "v": ["1001", "5"]}, "init_dtype": "float16"})
+    specs.append({"kind": "trough", "name": "T", "vrows": 4, "cols": 2, "min": "0", "max": "104857599/1048576", "init": {"shape": "list", "v": ["5", "100"]}, "init_dtype": "float32"})
+    specs.append({"kind": "plate", "name": "P", "rows": 1, "cols": 2, "min": "0", "max": "100", "init": {"shape": "list", "v": ["100", "5"]}, "init_dtype": "float32"})
     # per-column initial volumes of the wrong length, the one-element list included (only a scalar is broadcast)
     for cols_ in (2, 3, 4):
         for n_ in (1, cols_ - 1, cols_ + 1):
@@ -669,7 +674,18 @@ class CtorSuite:
 
         warnings.simplefilter("ignore")
         try:
-            lw = progbase.build_labware(case["spec"])
+            if case["spec"].get("init_dtype"):
+                import numpy
+
+                arr0 = numpy.array(np_arg(case["spec"]["init"], to_float), dtype=float)
+                narrow = arr0.astype(case["spec"]["init_dtype"])
+                if not (narrow.astype(float) == arr0).all():
+                    raise CaseError("initial volumes not representable in " + case["spec"]["init_dtype"])
+                lw = progbase.build_labware(case["spec"], shared=narrow)
+            else:
+                lw = progbase.build_labware(case["spec"])
+        except CaseError:
+            raise
         except Exception as e:
             return {"err": errcode(e), "exc": type(e).__name__}
         vols = progbase.vols_obs(lw)
